@@ -55,6 +55,9 @@ struct Change {
     range: Option<((u32, u32), (u32, u32))>,
     text: String,
     class: &'static str,
+    /// the deprecated `rangeLength` some editors still send (UTF-16 units of the replaced
+    /// text as the EDITOR sees it); `range` is authoritative
+    range_length: Option<u32>,
 }
 
 #[derive(Clone, Debug)]
@@ -74,7 +77,7 @@ impl Op {
             Op::Change { changes, uri } => format!("didChange:{}:{}", uri_class(uri), changes.iter().map(|c| c.class).collect::<Vec<_>>().join("+")),
             Op::Close { .. } => "didClose".into(),
             Op::Save { .. } => "didSave".into(),
-            Op::Watched { .. } => "didChangeWatchedFiles".into(),
+            Op::Watched { events } => if events.iter().all(|e| (1..=3).contains(&e.1)) { "didChangeWatchedFiles".into() } else { "didChangeWatchedFiles:type-out-of-protocol".into() },
             Op::Request { class, .. } => class.clone(),
         }
     }
@@ -111,7 +114,13 @@ fn send_op(s: &mut Server, op: &Op, version: &mut i64) -> Option<i64> {
                 .iter()
                 .map(|c| match c.range {
                     None => json!({"text": c.text}),
-                    Some(((l1, c1), (l2, c2))) => json!({"range":{"start":{"line":l1,"character":c1},"end":{"line":l2,"character":c2}},"text":c.text}),
+                    Some(((l1, c1), (l2, c2))) => {
+                        let mut v = json!({"range":{"start":{"line":l1,"character":c1},"end":{"line":l2,"character":c2}},"text":c.text});
+                        if let Some(n) = c.range_length {
+                            v["rangeLength"] = json!(n);
+                        }
+                        v
+                    }
                 })
                 .collect();
             s.notify("textDocument/didChange", json!({"textDocument":{"uri":uri,"version":*version},"contentChanges":cs}));
@@ -325,6 +334,14 @@ impl Model {
                         3 => {
                             cur.insert(St::Forgotten);
                         }
+                        t if !(1..=3).contains(t) => {
+                            // not a change type of the protocol: ignoring the event, reloading
+                            // the file and dropping it are all acceptable
+                            cur.insert(St::Forgotten);
+                            if let Some(t) = uri_path(uri).and_then(|p| self.disk.get(&p)) {
+                                cur.insert(St::Text(t.replace('\r', "")));
+                            }
+                        }
                         _ => {
                             if let Some(p) = uri_path(uri) {
                                 match self.disk.get(&p) {
@@ -392,24 +409,35 @@ fn gen_change(r: &mut Rng, doc: &Doc, hostile: bool) -> Change {
     if !hostile || r.chance(1, 2) {
         if r.chance(1, 10) {
             let t = if r.chance(1, 2) { "fn main() {\n  1\n}\n".to_string() } else { "let 💣 = \"ß\"\r\nfn x() { x }".to_string() };
-            return Change { range: None, text: t, class: "full" };
+            return Change { range: None, text: t, class: "full", range_length: None };
         }
-        return Change { range: Some(((s.line, s.col), (e.line, e.col))), text, class: "valid" };
+        // one valid change in three carries the deprecated rangeLength: what an editor that
+        // keeps CRLF line ends would count (one more unit per line break crossed), or plainly
+        // the UTF-16 length of the replaced text
+        let range_length = if r.chance(1, 3) {
+            let (a, b) = (doc.offset_of(s).unwrap_or(0), doc.offset_of(e).unwrap_or(0));
+            let replaced = &doc.text[a.min(b)..b.max(a)];
+            let crlf = if r.chance(1, 2) { replaced.matches('\n').count() as u32 } else { 0 };
+            Some(vh::lspmodel::utf16_len(replaced) + crlf)
+        } else {
+            None
+        };
+        return Change { range: Some(((s.line, s.col), (e.line, e.col))), text, class: if range_length.is_some() { "valid+rangeLength" } else { "valid" }, range_length };
     }
     match r.below(4) {
-        0 if i != j => Change { range: Some(((e.line, e.col), (s.line, s.col))), text, class: "reversed" },
+        0 if i != j => Change { range: Some(((e.line, e.col), (s.line, s.col))), text, class: "reversed", range_length: None },
         1 => {
             let (p, cls) = invalid_position(r, doc);
-            Change { range: Some(((s.line, s.col), p)), text, class: cls }
+            Change { range: Some(((s.line, s.col), p)), text, class: cls, range_length: if r.chance(1, 4) { Some(r.below(20) as u32) } else { None } }
         }
         2 => {
             let (p, cls) = invalid_position(r, doc);
-            Change { range: Some((p, p)), text, class: cls }
+            Change { range: Some((p, p)), text, class: cls, range_length: None }
         }
         _ => {
             let (p, cls) = invalid_position(r, doc);
             let (q, _) = invalid_position(r, doc);
-            Change { range: Some((p, q)), text, class: cls }
+            Change { range: Some((p, q)), text, class: cls, range_length: None }
         }
     }
 }
@@ -520,7 +548,8 @@ fn gen_sequence(r: &mut Rng, env: &Env, hostile: bool) -> Vec<Op> {
         } else if k < 14 && hostile {
             let targets = [p("src/a.gleam"), p("src/b.gleam"), p("src/gone.gleam"), p("src/adir.gleam"), p("src/fifo.gleam"), p("gleam.toml"), "untitled:x".to_string()];
             let ne = r.range(1, 3);
-            let events = (0..ne).map(|_| (targets[r.below(targets.len())].clone(), r.range(1, 3) as u32)).collect();
+            // FileChangeType is 1 (created), 2 (changed) or 3 (deleted); a client may send anything
+            let events = (0..ne).map(|_| (targets[r.below(targets.len())].clone(), if r.chance(1, 5) { *r.pick(&[0u32, 4, 7, 2147483647]) } else { r.range(1, 3) as u32 })).collect();
             ops.push(Op::Watched { events });
         } else {
             ops.push(gen_request(r, &uri, &doc, hostile));
@@ -577,7 +606,7 @@ fn exit_string(s: &mut Server) -> String {
     "stdout-closed-but-process-running".into()
 }
 
-fn run_sequence(env: &Env, ops: &[Op], stepwise: bool, probe_uris: &[String], stderr: Option<&Path>) -> RunResult {
+fn run_sequence(env: &Env, ops: &[Op], stepwise: bool, probe_uris: &[String], stderr: Option<&Path>, profile: Option<&vh::lspclient::ClientProfile>) -> RunResult {
     let mut res = RunResult::default();
     let mut s = match Server::spawn(&env.bin, &[], stderr) {
         Ok(s) => s,
@@ -587,7 +616,16 @@ fn run_sequence(env: &Env, ops: &[Op], stepwise: bool, probe_uris: &[String], st
         }
     };
     let root_uri = file_uri(&env.proj.display().to_string());
-    if s.initialize(Some(&root_uri), Duration::from_secs(20)).is_none() {
+    let init = match profile {
+        Some(p) => s.initialize_with(Some(&root_uri), p.capabilities.clone(), p.client_info.clone(), Duration::from_secs(20)),
+        None => s.initialize(Some(&root_uri), Duration::from_secs(20)),
+    };
+    if init.is_none() {
+        if !s.alive() {
+            res.died_after = Some((0, "initialize".into()));
+            res.exit = exit_string(&mut s);
+            return res;
+        }
         res.hang = Some("no initialize response".into());
         return res;
     }
@@ -676,7 +714,7 @@ fn ops_json(ops: &[Op]) -> Value {
         .iter()
         .map(|op| match op {
             Op::Open { uri, text } => json!({"op":"didOpen","uri":uri,"text":text}),
-            Op::Change { uri, changes } => json!({"op":"didChange","uri":uri,"changes":changes.iter().map(|c| json!({"range":c.range.map(|(s,e)| json!([[s.0,s.1],[e.0,e.1]])),"text":c.text,"class":c.class})).collect::<Vec<_>>()}),
+            Op::Change { uri, changes } => json!({"op":"didChange","uri":uri,"changes":changes.iter().map(|c| json!({"range":c.range.map(|(s,e)| json!([[s.0,s.1],[e.0,e.1]])),"text":c.text,"class":c.class,"rangeLength":c.range_length})).collect::<Vec<_>>()}),
             Op::Close { uri } => json!({"op":"didClose","uri":uri}),
             Op::Save { uri } => json!({"op":"didSave","uri":uri}),
             Op::Watched { events } => json!({"op":"didChangeWatchedFiles","events":events}),
@@ -740,7 +778,7 @@ fn judge(rep: &mut Report, prop: &str, env: &Env, ops: &[Op], res: &RunResult, s
             ok = false;
             // which change classes were involved
             let classes: BTreeSet<&str> = ops.iter().filter_map(|o| match o { Op::Change { uri: u, changes } if u == uri => Some(changes.iter().map(|c| c.class).collect::<Vec<_>>()), _ => None }).flatten().collect();
-            let only_valid = classes.iter().all(|c| *c == "valid" || *c == "full");
+            let only_valid = classes.iter().all(|c| *c == "valid" || *c == "valid+rangeLength" || *c == "full");
             let shown = match obs {
                 Ok(d) => {
                     let leaves = synmon::dump_leaves(d).unwrap_or_default();
@@ -757,7 +795,7 @@ fn judge(rep: &mut Report, prop: &str, env: &Env, ops: &[Op], res: &RunResult, s
                     replay.clone(),
                 );
             } else if prop == "C15" {
-                rep.see("invalid_edit_classes_in_desynced_histories", classes.iter().filter(|c| **c != "valid" && **c != "full").cloned().collect::<Vec<_>>().join("+"));
+                rep.see("invalid_edit_classes_in_desynced_histories", classes.iter().filter(|c| **c != "valid" && **c != "valid+rangeLength" && **c != "full").cloned().collect::<Vec<_>>().join("+"));
                 rep.violate(
                     format!("edit-applied-elsewhere:{}", uri_class(uri)),
                     format!("{uri}: {shown}; acceptable after the invalid edit(s): {want:?}"),
@@ -780,14 +818,17 @@ fn run_c15(args: &Args) -> Report {
         let mut cr = Rng::new(case_seed);
         let ops = gen_sequence(&mut cr, &env, true);
         let stepwise = cr.chance(1, 2);
+        // what the client says about itself at initialize differs from editor to editor
+        let profile = vh::lspclient::client_profile(&mut cr);
+        rep.see("client_profiles", profile.descr.clone());
         let probe_uris: Vec<String> = ops.iter().filter_map(|o| match o { Op::Open { uri, .. } | Op::Change { uri, .. } => Some(uri.clone()), _ => None }).collect::<BTreeSet<_>>().into_iter().collect();
-        let replay = json!({"kind":"lsp-sequence","ops":ops_json(&ops),"stepwise":stepwise,"case_seed":case_seed.to_string()});
+        let replay = json!({"kind":"lsp-sequence","ops":ops_json(&ops),"stepwise":stepwise,"case_seed":case_seed.to_string(),"client":profile.descr});
         rep.evaluations += 1;
-        let mut res = run_sequence(&env, &ops, stepwise, &probe_uris, None);
+        let mut res = run_sequence(&env, &ops, stepwise, &probe_uris, None, Some(&profile));
         // a death in pipelined mode is re-run stepwise for attribution
         let mut sw = stepwise;
         if res.died_after.is_some() && !stepwise {
-            let res2 = run_sequence(&env, &ops, true, &probe_uris, None);
+            let res2 = run_sequence(&env, &ops, true, &probe_uris, None, Some(&profile));
             if res2.died_after.is_some() {
                 res = res2;
                 sw = true;
@@ -800,7 +841,7 @@ fn run_c15(args: &Args) -> Report {
         rep.count("responses_with_result", res.n_results as u64);
         rep.count("responses_with_error", res.n_errors as u64);
         judge(&mut rep, "C15", &env, &ops, &res, sw, &replay);
-        let hostile_msgs = ops.iter().filter(|o| { let c = o.class(); !(c.ends_with(":valid") || c.ends_with("valid-pos") || c == "didClose" || c == "didSave") }).count();
+        let hostile_msgs = ops.iter().filter(|o| { let c = o.class(); !(c.ends_with(":valid") || c.ends_with(":valid+rangeLength") || c.ends_with("valid-pos") || c == "didClose" || c == "didSave") }).count();
         if hostile_msgs >= 1 {
             rep.nontrivial(fnv(ops_json(&ops).to_string().as_bytes()));
         }
@@ -839,6 +880,8 @@ fn run_c13bb(args: &Args) -> Report {
         s.notify("textDocument/didOpen", json!({"textDocument":{"uri":uri,"languageId":"gleam","version":version,"text":text}}));
         let nnotes = r.range(1, 6);
         let mut ok = true;
+        // one history in three comes from an editor that still sends rangeLength
+        let cr_len = r.chance(1, 3);
         for _ in 0..nnotes {
             let nch = r.range(1, 4);
             let mut cs = Vec::new();
@@ -851,7 +894,15 @@ fn run_c13bb(args: &Args) -> Report {
                     cs.push(json!({"text": ins}));
                     client.apply(None, &ins).unwrap();
                 } else {
-                    cs.push(json!({"range":{"start":{"line":ps[i].line,"character":ps[i].col},"end":{"line":ps[j].line,"character":ps[j].col}},"text":ins}));
+                    let mut c = json!({"range":{"start":{"line":ps[i].line,"character":ps[i].col},"end":{"line":ps[j].line,"character":ps[j].col}},"text":ins});
+                    if cr_len {
+                        // the deprecated rangeLength, as editors that still send it count it:
+                        // UTF-16 units of the replaced text, carriage returns included
+                        let (a, b) = (client.offset_of(ps[i]).unwrap(), client.offset_of(ps[j]).unwrap());
+                        c["rangeLength"] = json!(vh::lspmodel::utf16_len(&client.text[a..b]));
+                        rep.count("bb_changes_with_rangeLength", 1);
+                    }
+                    cs.push(c);
                     client.apply(Some((ps[i], ps[j])), &ins).unwrap();
                 }
             }
